@@ -1,7 +1,7 @@
 """C20 - admission seats one conforming client per seat and turns the others away.
 
 R1  exhaustive abstract transition check of PlayerThread._connect, interpreted alone (sa.skeleton)
-    for every seat table in {free, A, B}^4 and every well-formed request in 4 seats x {A, B, C} x
+    for every seat table in {free, A, B}^4 and every well-formed request in 4 seats x {A, B, C, a, 'A ', AA} x
     {v18, v17, v19}: wrong version / seat taken / partner seated under another name => an ERROR reply,
     connection closed, table unchanged; otherwise table[seat] := team and the `<Seat> <team>
     seated` reply; in every case exactly one verdict signal to the accept loop.  Team names are
@@ -30,6 +30,46 @@ from .c09 import discipline
 from .common import external_mutations, loc, writers_of
 
 SRV = 'bridge_env/network_bridge/server.py'
+# request names: two seated names, a fresh one, and near-misses of a seated name (letter case, surrounding blank, prefix)
+TEAMS = ('A', 'B', 'C', 'a', 'A ', 'AA')
+
+
+def name_uses(chk, repo):
+    """The finite-names argument of R1: team names reach only ==/!=/is-None tests, f-string holes, the seat table and locals."""
+    from ..index import parent
+    ci, fn = repo.method('PlayerThread', '_connect', 'C20.R1')
+    tainted = set()
+    for n in ast.walk(fn):
+        if isinstance(n, ast.Assign) and isinstance(n.targets[0], ast.Tuple) and 'parse_connection_info' in ast.unparse(n.value):
+            if n.targets[0].elts and isinstance(n.targets[0].elts[0], ast.Name):
+                tainted.add(n.targets[0].elts[0].id)
+    if not tainted:
+        raise AnalysisError('C20.R1', 'PlayerThread._connect', 'cannot find the team name taken from parse_connection_info')
+    changed = True
+    while changed:
+        changed = False
+        for n in ast.walk(fn):
+            if isinstance(n, ast.Assign) and len(n.targets) == 1 and isinstance(n.targets[0], ast.Name) and n.targets[0].id not in tainted:
+                v = n.value
+                if (isinstance(v, ast.Name) and v.id in tainted) or (isinstance(v, ast.Subscript) and ast.unparse(v.value) == 'self.team_names'):
+                    tainted.add(n.targets[0].id)
+                    changed = True
+    bad = None
+    for n in ast.walk(fn):
+        is_name = (isinstance(n, ast.Name) and n.id in tainted and isinstance(n.ctx, ast.Load)) or \
+            (isinstance(n, ast.Subscript) and isinstance(n.ctx, ast.Load) and ast.unparse(n.value) == 'self.team_names')
+        if not is_name:
+            continue
+        par = parent(n)
+        if isinstance(par, ast.Compare) and all(isinstance(o, (ast.Eq, ast.NotEq, ast.Is, ast.IsNot)) for o in par.ops):
+            continue
+        if isinstance(par, ast.FormattedValue) or (isinstance(par, ast.Assign) and par.value is n):
+            continue
+        bad = bad or (par, n)
+    if bad:
+        raise AnalysisError('C20.R1', 'PlayerThread._connect', f'team name `{ast.unparse(bad[1])}` is used in `{ast.unparse(bad[0])[:70]}` (not an ==/!=/None test, an f-string '
+                                                               f'hole or a plain store): six representative names do not cover every behaviour')
+    chk.ok('C20.R1', repo.where(ci.module, fn), f'team names ({sorted(tainted)}, seat-table entries) reach only ==/!=/None tests, f-string holes and stores')
 
 
 def scenarios(tier: str):
@@ -77,7 +117,7 @@ def run(chk):
 
     # ---- R1 ------------------------------------------------------------------------------------------------------------------
     tables = [dict(zip(S.SEATS, t)) for t in itertools.product([None, 'A', 'B'], repeat=4)]
-    cases = [(t, s, team, v) for t in tables for s in S.SEATS for team in ('A', 'B', 'C') for v in (18, 17, 19)]
+    cases = [(t, s, team, v) for t in tables for s in S.SEATS for team in TEAMS for v in (18, 17, 19)]
     chunks = [cases[i::jobs * 2] for i in range(jobs * 2)]
     if jobs == 1:
         res = [S.connect_case_worker((repo.root, c)) for c in chunks]
@@ -88,7 +128,7 @@ def run(chk):
     errs = [f'table {r["table"]} request {r["seat"]}/{r["team"]}/v{r["version"]}: {e}' for r in rows for e in r['errors']]
     if errs:
         raise AnalysisError('C20.R1', q_c, f'{len(errs)} transition case(s) left the supported subset: ' + ' || '.join(errs[:2]))
-    chk.floor('C20.R1', 'transition cases', len(rows), 2916)
+    chk.floor('C20.R1', 'transition cases', len(rows), 81 * 4 * len(TEAMS) * 3)
     for r in rows:
         chk.evals()
         verdict, why, after = S.admission_spec(r['table'], r['seat'], r['team'], r['version'])
@@ -108,7 +148,7 @@ def run(chk):
                         f'{sit}: _connect returned {r["ret"]} after sending {r["n_server_msgs"]} message(s)')
         else:
             want = f'{S.FORMAL[r["seat"]]} {r["team"]} seated'
-            chk.require(isinstance(reply, str) and ' '.join(reply.split()).lower() == want.lower(), 'C20.R1', w_c, q_c, 'acceptable request: reply', 'an acceptable request is answered `<Seat> <team> seated`',
+            chk.require(isinstance(reply, str) and reply.lower() == want.lower(), 'C20.R1', w_c, q_c, 'acceptable request: reply', 'an acceptable request is answered `<Seat> <team> seated`',
                         f'{sit}: reply is {reply!r}, expected {want!r}')
             chk.require(r['after'] == after, 'C20.R1', w_c, q_c, 'acceptable request: seat table', 'the seat is recorded under the team name, nothing else changes',
                         f'{sit}: the seat table becomes {r["after"]}, expected {after}')
@@ -120,6 +160,9 @@ def run(chk):
                         f'{sit}: Teams line is {r["teams"]!r}, expected {wantt!r}')
         chk.require(r['sets'] == 1, 'C20.R1', w_c, q_c, f'{cls}: verdict signals', f'{cls}: exactly one verdict signal to the accept loop',
                     f'{sit}: event_thread.set() executed {r["sets"]} times (the accept loop waits for exactly one)')
+
+    if not chk.findings:
+        name_uses(chk, repo)
 
     # ---- R2 ------------------------------------------------------------------------------------------------------------------
     Sm = Summarizer(repo, 'C20.R2')
